@@ -142,7 +142,7 @@ def stage1b_one(d, m):
 def stage2_one(d, m):
     apply(d, m)
     try:
-        props = MAP[m["file"]]
+        props = m.get("props") or MAP[m["file"]]
         env = dict(ENV, VERIF_REPO=d + "/repo", VERIF_SEED="1")
         inconc = []
         for p in props:
@@ -235,8 +235,9 @@ def main():
         print("stage-1 survivors:", len(muts), flush=True)
         run_stage(stage1b_one, muts, workers, out + "/stage1b.jsonl", load(out + "/stage1b.jsonl"))
     elif stage == "stage2":
-        s1 = load(out + "/stage1b.jsonl")
-        muts = [r for r in s1.values() if r["result"] in ("survived", "timeout", "killed-other")]
+        # tools/muttriage.py has set aside the mutants that are equivalent by inspection
+        muts = [json.loads(l) for l in open(out + "/triage.jsonl")]
+        muts = [r for r in muts if r["verdict"] == "test"]
         print("stage-1 survivors:", len(muts), flush=True)
         run_stage(stage2_one, muts, workers, out + "/stage2.jsonl", load(out + "/stage2.jsonl"))
     elif stage == "stage3":
